@@ -20,7 +20,7 @@ func (c02) Gen(rng *simrt.Rand, seed uint64, tier string) *Case {
 		max = 90
 	}
 	kinds := []string{"tumbling", "tumbling", "sliding", "sliding", "session"}
-	c := genEvCase(rng, tier, evGenOpts{Kinds: kinds, AllowAL: true, Garbage: true, Idle: true, LateRows: 0.3, MaxRows: max, Burst: true})
+	c := genEvCase(rng, tier, evGenOpts{Kinds: kinds, AllowAL: true, Garbage: true, Idle: true, LateRows: 0.3, MaxRows: max, Burst: true, Stall: true})
 	c.FaultFree = c.Insts[0].Sinks[0].Fault == "" && !c.xBool("garbage")
 	return c
 }
